@@ -51,6 +51,7 @@ class Ctx:
         self.sqrt_cache = {}
         self.sqrt_args = {}
         self.aux = {}
+        self.facts = []  # facts about hash-consed symbols (shared with nested summaries)
         self.uf_cache = {}
         self.inputs = {}  # name -> z3 const
         self.fresh = 0
@@ -545,6 +546,7 @@ def sym_sqrt(x):
         s = z3.Real(c.fresh_name("sqrt"))
         c.sqrt_cache[key] = s
         c.sqrt_args[key] = (e, s)
+        c.facts.append(s >= 0)
         c.add(s >= 0)
         if not UF_NONLINEAR:
             c.side.append(s * s == e)
@@ -974,8 +976,24 @@ class SymbolicI:
         ctx.solver.push()
         try:
             if side:
-                for s in ctx.side:
-                    ctx.solver.add(s)
+                # only the side conditions of the sqrt symbols that occur in this obligation (transitively)
+                want = _consts_of(neg)
+                for e in extra:
+                    want |= _consts_of(_bz(e))
+                changed = True
+                chosen = []
+                while changed:
+                    changed = False
+                    for sc in ctx.side:
+                        if any(sc is c for c in chosen):
+                            continue
+                        sym = sc.arg(0).arg(0) if sc.arg(0).num_args() == 2 else sc.arg(0)
+                        if str(sym) in want:
+                            chosen.append(sc)
+                            want |= _consts_of(sc)
+                            changed = True
+                for sc in chosen:
+                    ctx.solver.add(sc)
             for e in extra:
                 ctx.solver.add(_bz(e))
             ctx.solver.add(neg)
@@ -1009,6 +1027,20 @@ class SymbolicI:
             return None
         finally:
             ctx.solver.pop()
+
+
+def _consts_of(e):
+    out, seen, stack = set(), set(), [e]
+    while stack:
+        t = stack.pop()
+        if t.get_id() in seen:
+            continue
+        seen.add(t.get_id())
+        if z3.is_const(t) and t.decl().kind() == z3.Z3_OP_UNINTERPRETED:
+            out.add(str(t))
+        else:
+            stack.extend(t.children())
+    return out
 
 
 def model_values(ctx, m):
@@ -1210,26 +1242,43 @@ def _eval_obs(m, val):
 
 def summarize(fn, timeout_ms=10000, assumes=()):
     """Explore all paths of fn() (returning SymBool/bool); result: z3 formula OR(pc & result).
-    Must be called *outside* an exploration (fresh contexts)."""
+    May be called inside an exploration: the nested contexts share the outer context's hash-consed sqrt symbols
+    (and start from the outer path condition's facts about them); the outer path condition itself is NOT assumed."""
     work = [[]]
     disj = []
     outer = Ctx.cur
     while work:
         prefix = work.pop()
         ctx = Ctx(prefix, timeout_ms)
+        if outer is not None:
+            ctx.sqrt_cache, ctx.sqrt_args, ctx.side, ctx.facts = outer.sqrt_cache, outer.sqrt_args, outer.side, outer.facts
+            ctx.uf_cache = outer.uf_cache
+            ctx.fresh = outer.fresh + 1000 * (len(disj) + 1)
+            nfacts = len(outer.facts)
+            for f in outer.facts:
+                ctx.solver.add(f)
+            for f in outer.solver.assertions():  # the outer path condition prunes the nested paths (it is not part of the result)
+                ctx.solver.add(f)
         for a in assumes:
             ctx.solver.add(a)
+        base = len(ctx.solver.assertions())
         Ctx.cur = ctx
         try:
             r = fn()
         except Abort:
             r = None
+        except Exception:
+            r = False  # a raising evaluation is not a 'true' outcome
         finally:
             Ctx.cur = outer
+        if outer is not None:
+            outer.fresh = max(outer.fresh, ctx.fresh)
+            for f in outer.facts[nfacts:]:
+                outer.solver.add(f)
         work.extend(ctx.work)
         if r is None:
             continue
         re_ = r.e if isinstance(r, SymBool) else z3.BoolVal(bool(r))
-        lits = [a for a in ctx.solver.assertions()]
+        lits = [a for a in ctx.solver.assertions()][base:]
         disj.append(z3.And(*lits, re_) if lits else re_)
     return z3.Or(*disj) if disj else z3.BoolVal(False)
